@@ -262,11 +262,29 @@ def job_misc(j, seed):
             chk(f'comment {comment!r}: every emitted comment line starts with #', C.B.const(all(ln.startswith('#') for ln in body) and lines[-1] == '_a.x 1'),
                 'C14:comment', {'ctx': 'comment', 'comment': comment})
     elif what == 'nonascii':
+        # every route a string can take into the file: plain str and scipp string scalar in a chunk, string column of a loop
+        # (first / later column), comment, the builder's author / reducer lists (one entry -> chunk, several -> loop)
         for s in ['µm', 'Å', 'naïve ✓', 'abc']:
-            f = io.StringIO()
-            cif.Chunk({'a.x': s}, comment=s).write(f)
-            out = f.getvalue()
-            chk(f'{s!r}: output is ASCII', C.B.const(out.isascii()), 'C14:nonascii', {'ctx': 'nonascii', 'value': s})
+            routes = {
+                'chunk value (str)': lambda: cif.Chunk({'a.x': s}, comment=s),
+                'chunk value (scipp string scalar)': lambda: cif.Chunk({'a.x': sc.scalar(s)}),
+                'loop column 1': lambda: cif.Loop({'a.x': sc.array(dims=['r'], values=[s, 'plain']), 'a.n': sc.array(dims=['r'], values=[1.5, 2.5])}),
+                'loop column 2': lambda: cif.Loop({'a.n': sc.array(dims=['r'], values=[1.5, 2.5]), 'a.x': sc.array(dims=['r'], values=['plain', s])}),
+                'loop comment': lambda: cif.Loop({'a.n': sc.array(dims=['r'], values=[1.5, 2.5])}, comment=s),
+            }
+            for rname, mk in routes.items():
+                f = io.StringIO()
+                mk().write(f)
+                out = f.getvalue()
+                chk(f'{s!r} via {rname}: output is ASCII', C.B.const(out.isascii()), 'C14:nonascii', {'ctx': 'nonascii', 'value': s, 'route': rname})
+            for n_auth in (1, 2):
+                people = [cif.Person(name=f'{s} {i}', address=s) for i in range(n_auth)]
+                c_ = cif.CIF('blk').with_authors(*people).with_reducers(*[f'{s} {i}' for i in range(n_auth)])
+                f = io.StringIO()
+                for it in [*c_._assemble_authors()]:
+                    it.write(f)
+                out = f.getvalue()
+                chk(f'{s!r} via {n_auth} author(s): output is ASCII', C.B.const(out.isascii()), 'C14:nonascii', {'ctx': 'nonascii', 'value': s, 'route': f'authors{n_auth}'})
     elif what == 'blockname':
         s = SymStr('N', alphabet_extra='\t\n')
         C.CTX.assume(C.B('z3', s.alphabet))
@@ -478,10 +496,17 @@ def replay_real(case):
         if toks != [('tag', '_a.x'), ('value', '1')]:
             bad.append(f'comment leaks into data: {toks}')
     elif ctx == 'nonascii':
+        v = case['value']
         f = io.StringIO()
-        cif.Chunk({'a.x': case['value']}, comment=case['value']).write(f)
-        if not f.getvalue().isascii():
-            bad.append('non-ASCII output')
+        cif.Chunk({'a.x': v}, comment=v).write(f)
+        cif.Chunk({'a.y': sc.scalar(v)}).write(f)
+        cif.Loop({'a.x': sc.array(dims=['r'], values=[v, 'plain']), 'a.n': sc.array(dims=['r'], values=[1.5, 2.5])}).write(f)
+        cif.Loop({'a.n': sc.array(dims=['r'], values=[1.5, 2.5]), 'a.z': sc.array(dims=['r'], values=['plain', v])}, comment=v).write(f)
+        g = io.StringIO()
+        cif.CIF('blk').with_authors(cif.Person(name=v + ' 0', address=v), cif.Person(name=v + ' 1', address=v)).with_reducers(v + ' a', v + ' b').save(g)
+        for nm, txt in (('chunks/loops', f.getvalue()), ('builder', g.getvalue())):
+            if not txt.isascii():
+                bad.append(f'non-ASCII output via {nm}: {[ln for ln in txt.splitlines() if not ln.isascii()][:2]}')
     elif ctx == 'blockname':
         for nm in ['a b', 'a\tb', 'a\nb']:
             try:
